@@ -69,13 +69,13 @@ def c_str(s):
 def c_list(items, ty=None):
     items = list(items)
     if not items and ty:
-        return '(@nil %s)' % ty
+        return '(@nil (%s))' % ty
     return '[' + '; '.join(items) + ']'
 
 
 def c_opt(x, pr, ty=None):
     if x is None:
-        return '(@None %s)' % ty if ty else 'None'
+        return '(@None (%s))' % ty if ty else 'None'
     return '(Some %s)' % pr(x)
 
 
